@@ -193,6 +193,9 @@ def ref_parse_path(path, auto_slot):
     if not segs:
         return host, port, ([(1, 0)] if auto_slot else [])
     if len(segs) == 1 and auto_slot:
+        # the address/slot shortcut: the single segment is a slot number of the local backplane (an address there is an odd segment)
+        if not _dec(segs[0]):
+            raise PathError("address/slot shortcut with something that is not a slot number")
         return host, port, [(1, _link(segs[0]))]
     if len(segs) % 2:
         raise PathError("odd number of route segments")
